@@ -397,4 +397,72 @@ theorem sigmaOver_cells {α : Type} [Add α] [Sub α] [Mul α] [Div α] [Neg α]
         exact ⟨t, ht, x, hx, c0, hc0, rfl⟩
 
 
+/-! ### the class each shipped module name stands for
+
+The table `shipped` is written by hand (it is what `make_model("iba", "dort")`, `make_soil("soil_wegmuller", …)`,
+`make_snowpack(…, "sticky_hard_spheres")` … have always built); `Gen.C19.plugins` is regenerated from the source on every run.
+The theorem says the rule of `do_import_class` (model: `Mod.pick`), applied to the classes the source defines *now*, still
+gives every name its class: adding or renaming a class that sorts before the model class of its module breaks it.  The
+rule itself is tied to the code by the correspondence (`Gen.Plugins` slice) and by the oracle key `plugin:own-class`. -/
+
+def shipped : List (String × String × String) := [
+  ("emmodel", "dmrt_qca_shortrange", "DMRT_QCA_ShortRange"),
+  ("emmodel", "dmrt_qcacp_shortrange", "DMRT_QCACP_ShortRange"),
+  ("emmodel", "iba", "IBA"),
+  ("emmodel", "iba_maxwell_garnett", "IBA_MaxwellGarnett"),
+  ("emmodel", "iba_original", "IBA_original"),
+  ("emmodel", "nonscattering", "NonScattering"),
+  ("emmodel", "prescribed_kskaeps", "Prescribed_KsKaEps"),
+  ("emmodel", "rayleigh", "Rayleigh"),
+  ("emmodel", "sce_common", "SCEBase"),
+  ("emmodel", "sce_rechtsman08", "SCER08"),
+  ("emmodel", "sce_torquato21", "SCETK21"),
+  ("emmodel", "sce_torquato21_shortrange", "SCETK21_ShortRange"),
+  ("emmodel", "sft_rayleigh", "SFT_Rayleigh"),
+  ("emmodel", "symsce_torquato21", "SymSCETK21"),
+  ("emmodel", "symsce_torquato21_shortrange", "SymSCETK21_ShortRange"),
+  ("rtsolver", "dort", "DORT"),
+  ("rtsolver", "dort_nonormalization", "DORT"),
+  ("rtsolver", "nadir_lrm_altimetry", "NadirLRMAltimetry"),
+  ("rtsolver", "waveform_model", "Brown1977"),
+  ("interface", "coherent_flat", "CoherentFlat"),
+  ("interface", "flat", "Flat"),
+  ("interface", "geometrical_optics", "GeometricalOptics"),
+  ("interface", "geometrical_optics_backscatter", "GeometricalOpticsBackscatter"),
+  ("interface", "iem_fung92", "IEM_Fung92"),
+  ("interface", "iem_fung92_brogioni10", "IEM_Fung92_Briogoni10"),
+  ("interface", "radar_calibration_sphere", "RadarCalibrationSphere"),
+  ("interface", "transparent", "Transparent"),
+  ("substrate", "flat", "Flat"),
+  ("substrate", "geometrical_optics", "GeometricalOptics"),
+  ("substrate", "geometrical_optics_backscatter", "GeometricalOpticsBackscatter"),
+  ("substrate", "iem_fung92", "IEM_Fung92"),
+  ("substrate", "iem_fung92_brogioni10", "IEM_Fung92_Briogoni10"),
+  ("substrate", "radar_calibration_sphere", "RadarCalibrationSphere"),
+  ("substrate", "reflector", "Reflector"),
+  ("substrate", "reflector_backscatter", "ReflectorBackscatter"),
+  ("substrate", "rough_choudhury79", "ChoudhuryReflectivity"),
+  ("substrate", "soil_qnh", "SoilQNH"),
+  ("substrate", "soil_wegmuller", "SoilWegmuller"),
+  ("substrate", "transparent", "Transparent"),
+  ("microstructure_model", "autocorrelation", "Autocorrelation"),
+  ("microstructure_model", "exponential", "Exponential"),
+  ("microstructure_model", "gaussian_random_field", "GaussianRandomField"),
+  ("microstructure_model", "homogeneous", "Homogeneous"),
+  ("microstructure_model", "independent_sphere", "IndependentSphere"),
+  ("microstructure_model", "sampled_autocorrelation", "SampledAutocorrelation"),
+  ("microstructure_model", "sticky_hard_spheres", "StickyHardSpheres"),
+  ("microstructure_model", "teubner_strey", "TeubnerStrey"),
+  ("microstructure_model", "unified_autocorrelation", "UnifiedAutocorrelation"),
+  ("microstructure_model", "unified_scaled_exponential", "UnifiedScaledExponential"),
+  ("microstructure_model", "unified_sticky_hard_spheres", "UnifiedStickyHardSpheres"),
+  ("microstructure_model", "unified_teubner_strey", "UnifiedTeubnerStrey"),
+  ("atmosphere", "simple_atmosphere", "SimpleAtmosphere"),
+  ("atmosphere", "simple_isotropic_atmosphere", "SimpleIsotropicAtmosphere")]
+def resolvesTo (t : Table) (e : String × String × String) : Bool :=
+  t.any fun m => m.dir == e.1 && m.name == e.2.1 && (m.pick.map (·.name)) == some e.2.2
+
+/-- every shipped module name resolves, by the rule applied to the regenerated class table, to the class it stands for -/
+theorem shipped_names_resolve : ∀ e ∈ shipped, resolvesTo Gen.C19.plugins e = true := by decide +kernel
+
 end Smrt.Props.C19
